@@ -20,5 +20,10 @@ CLAIMED = {
   note="Bounds: names <= 8 (quick) / 16 (thorough) arbitrary bytes, 1 <= N < 2^31; shard count transmitted as int32. x mod y < y is supplied to the solver as a lemma. Outside: N >= 2^31, leader election itself, guard-to-access window.",
   technique="symbolic execution of go/ssa + SMT (QF_BV)",
   ref="9/C13"),
+ "C16": dict(
+  text="Bounded symbolic model checking of the real validators (ValidateFlowControlConfiguration, ValidateServers, ...) on symbolic objects: no path panics (totality), and on every accepted object the consumers' preconditions hold; net/url.Parse is executed from source on the symbolic endpoint.",
+  note="Bounds: all 32 nil-ness combinations of the flow-control members with arbitrary int32 numbers; endpoints = http(s):// + <= 3/4 arbitrary bytes; <= 3 servers. PEM/x509 content and object-meta validation are outside. Trusted: gosym, z3; native witness replay.",
+  technique="symbolic execution of go/ssa (incl. net/url from source) + SMT (QF_BV)",
+  ref="9/C16"),
 }
 NOT_APPLICABLE = {}
